@@ -70,7 +70,7 @@ func (s *Scenario) Assemble() []string {
 // Expect - expected outcome from the fold.
 type Expect struct {
 	Err         bool
-	ErrClass    string   // "", conv, unknown, ambiguous, missing
+	ErrClass    string     // "", conv, unknown, ambiguous, missing
 	ErrContains []string   // first error candidate in argv order: every one must be contained in the message
 	ErrAlts     [][]string // all error candidates (the statements do not rank different kinds of error)
 	ErrAbsent   []string   // for unknown-option errors: names that must not be the one reported
